@@ -22,7 +22,9 @@ ASSUMPTIONS = [
     "theorems are over an ordered field (exact arithmetic); rounding is not proved: measured every run against exact rationals with the documented tolerances",
     "model FitModel.fit_system tied to the C/C++ by comparison of per-dimension bases, box products, penalty matrices, the F and R arrays after the real slicemultiply, and the normal system captured at cholesky_solve, on this run's cases",
     "well-posedness (positive definite normal matrix) is decided exactly per generated case; ill-posed cases are outside the property and skipped",
-    "knot vectors with distinct knots only (the fitter's bspline() divides 0/0 on repeated knots); abscissa conventions: right-continuous basis as in splineutil.c bspline()",
+    "knot vectors with distinct knots and (about a fifth of the dimensions of order >= 1, since fix 33ef56f) with one run of 2..order+1 repeated knots, interior or clamped at an end, "
+    "with the penalty order lowered to order-multiplicity+1 where necessary (beyond that calc_penalty divides by zero: the penalised derivative has no B-spline expansion, not a well-posed problem); "
+    "abscissa conventions: right-continuous basis as in splineutil.c bspline()",
 ]
 TRUSTED_EXTRA = [
     "CHOLMOD (cholmod_l_analyze/factorize/solve) as the solver oracle: hypothesis `solve_spec` of Section in Properties_C09.v",
@@ -96,6 +98,20 @@ def gen_dim(rng, maxspl, maxpts, want_poly):
     for i in range(nk):
         knots.append(t)
         t += step0 if style == "uniform" else rng.choice([0.25, 0.5, 0.75, 1.0, 1.25, 2.0, 3.5])
+    # repeated knots (routine since fix 33ef56f: splineutil.c's bspline() skips vanishing denominators): about a fifth of the
+    # dimensions of order >= 1 get one run of m equal knots (interior or clamped at an end), 2 <= m <= order+1 (m = order+1: the
+    # spline may jump there). All draws come from a forked stream so that the other cases of a seed stay what they were.
+    mult = 1
+    r2 = rng.fork("repeated-knots")
+    if order >= 1 and r2.chance(0.2):
+        m = r2.rint(2, order + 1)
+        where = r2.choice(["interior", "interior", "first", "last"])
+        start = 0 if where == "first" else nk - m if where == "last" else r2.rint(1, max(1, nk - m - 1))
+        rep = list(knots)
+        for q in range(start, min(nk, start + m)):
+            rep[q] = knots[start]
+        if rep[order] < rep[nspl] and rep[0] < rep[-1]:
+            knots, mult = rep, m
     lo, hi = knots[order], knots[nspl]          # fully supported range [lo, hi)
     g = 8 if want_poly else 32                   # abscissae on a 1/g grid (exact doubles)
     pts = []
@@ -131,10 +147,28 @@ def gen_dim(rng, maxspl, maxpts, want_poly):
     else:
         rng.shuffle(pts)
     smooth = rng.choice([0.0, 0.0, 2.0 ** -10, 1.0, 1.0, 2.0 ** 10])
-    return {"order": order, "porder": porder, "smooth": smooth, "knots": knots, "coords": pts}
+    d = {"order": order, "porder": porder, "smooth": smooth, "knots": knots, "coords": pts}
+    if mult > 1:
+        d["mult"] = mult
+        if not penalty_defined(d):
+            d["porder"] = order - mult + 1        # the highest derivative that still has a B-spline expansion (>= 0 as mult <= order+1)
+    return d
+
+def max_mult(knots):
+    best = run = 1
+    for a, b in zip(knots, knots[1:]):
+        run = run + 1 if a == b else 1
+        best = max(best, run)
+    return best
+
+def penalty_defined(d):
+    """the porder-th derivative of a spline of this order has a B-spline expansion (calc_penalty's divided differences have
+    non-zero denominators) iff no knot has multiplicity above order-porder+1. Required also where the smoothing is zero and fit
+    forms no penalty term, because the check calls calc_penalty directly for every dimension (correspondence of the penalty matrix)."""
+    return max_mult(d["knots"]) <= d["order"] - d["porder"] + 1
 
 def exact_bspline(kn, x, i, n):
-    """Cox-de Boor, right-continuous, 0/0 := 0 (never hit with distinct knots)"""
+    """Cox-de Boor, right-continuous, a term with a vanishing denominator dropped (repeated knots)"""
     if n == 0:
         return Fr(1) if kn[i] <= x < kn[i + 1] else Fr(0)
     r = Fr(0)
@@ -166,6 +200,7 @@ def gen_case(rng, cid, big=False):
         for d in dims:
             d["smooth"] = 0.0
     flags = 0
+    own = [(d["smooth"], d["porder"]) for d in dims]
     if rng.chance(0.3):
         for d in dims:
             d["smooth"] = dims[0]["smooth"]
@@ -174,6 +209,12 @@ def gen_case(rng, cid, big=False):
         for d in dims:
             d["porder"] = dims[0]["porder"]
         flags |= 2
+    if not all(penalty_defined(d) for d in dims):
+        # a shared smoothing strength / penalty order would penalise a derivative that a repeated knot makes undefined
+        # (division by zero in calc_penalty: not a well-posed problem): keep the per-dimension arguments
+        for d, (sm, po) in zip(dims, own):
+            d["smooth"], d["porder"] = sm, po
+        flags = 0
     # keep the padded problem well inside what calc_penalty supports
     for d in dims:
         if nspl_of(d) < d["porder"] + 1:
@@ -717,18 +758,21 @@ def run(info, out):
         # ---- coverage
         ok = [c for c in cases if results.get(c["id"], {}).get("status") == "ok"]
         hashes = set(case_hash(c) for c in ok)
-        dist = {"ndim": {}, "order": {}, "porder": {}, "smooth": {}, "kind": {}, "ncoef": {}, "status": {}, "flags": {}, "entries": {}}
+        dist = {"ndim": {}, "order": {}, "porder": {}, "smooth": {}, "kind": {}, "ncoef": {}, "status": {}, "flags": {}, "entries": {}, "max_knot_multiplicity": {}, "illposed_with_repeated_knots": {}}
         def bump(k, v):
             dist[k][str(v)] = dist[k].get(str(v), 0) + 1
         for c in cases:
-            bump("status", results.get(c["id"], {}).get("status", "?"))
+            st = results.get(c["id"], {}).get("status", "?")
+            bump("status", st)
+            if st != "ok" and any(max_mult(d["knots"]) > 1 for d in c["dims"]):
+                bump("illposed_with_repeated_knots", st)      # counted, not flagged: outside the property
         for c in ok:
             bump("ndim", len(c["dims"])); bump("kind", c["kind"]); bump("flags", c["flags"])
             n = results[c["id"]]["n"]
             bump("ncoef", "<=8" if n <= 8 else "<=24" if n <= 24 else "<=64" if n <= 64 else ">64")
             total = 1
             for d in c["dims"]:
-                bump("order", d["order"]); bump("porder", d["porder"]); bump("smooth", d["smooth"]); total *= len(d["coords"])
+                bump("order", d["order"]); bump("porder", d["porder"]); bump("smooth", d["smooth"]); bump("max_knot_multiplicity", max_mult(d["knots"])); total *= len(d["coords"])
             ne = len(c["entries"])
             bump("entries", "full" if ne >= total else "sparse")
         conds = sorted(results[c["id"]]["cond"] for c in ok)
@@ -737,7 +781,7 @@ def run(info, out):
             "evaluations": 2 * len(ok),
             "distinct_nontrivial": len(hashes),
             "rule": ("a case is one well-posed fitting problem (exact normal matrix positive definite, decided exactly) with 1..3 dimensions, orders 0..3, penalty orders 0..order, "
-                     "irregular dyadic knots, up to 8 abscissae per dimension (inside, on knots, in the margins, outside the support), dense or sparse cells, duplicate cells, "
+                     "irregular dyadic knots (a fifth of the dimensions of order >= 1 with a run of 2..order+1 repeated knots), up to 8 abscissae per dimension (inside, on knots, in the margins, outside the support), dense or sparse cells, duplicate cells, "
                      "zero and positive dyadic weights, smoothing in {0, 2^-10, 1, 2^10} (single or per dimension); every case is run through both entry points (C++ fit, C splinetable_glamfit) "
                      "and is followed by a permuted + zero-weight-padded variant; non-trivial = well-posed with at least 2 coefficients; distinct by the full input text"),
             "samples": [case_public(c) for c in ok[:2]],
